@@ -5,6 +5,7 @@ import json, os, shutil, subprocess, sys, tempfile, glob
 from concurrent.futures import ThreadPoolExecutor
 V = os.path.dirname(os.path.dirname(os.path.abspath(__file__)))
 claimed = [c['property_id'] for c in json.load(open(os.path.join(V, 'MANIFEST.json')))['checks']]
+UND = {}
 def run_one(patch):
     tmp = tempfile.mkdtemp(prefix='fstrf-')
     dst = os.path.join(tmp, 'repo')
@@ -18,13 +19,17 @@ def run_one(patch):
         for pid in claimed:
             r = subprocess.run([os.path.join(V, 'check'), pid], env=env, stdout=subprocess.PIPE, stderr=subprocess.STDOUT, text=True)
             if r.returncode != 0:
-                out += ['%s rc=%d %s' % (pid, r.returncode, l.strip()[:260]) for l in r.stdout.splitlines() if l.startswith('  [') or l.startswith('ERROR')][:6]
+                ls = ['%s rc=%d %s' % (pid, r.returncode, l.strip()[:260]) for l in r.stdout.splitlines() if l.startswith('  [') or l.startswith('ERROR')][:6]
+                out += ls or ['%s rc=%d CRASH %s' % (pid, r.returncode, r.stdout.strip().splitlines()[-1][:200] if r.stdout.strip() else '')]
+            und = [l for l in r.stdout.splitlines() if l.startswith('UNDECIDED')]
+            if und:
+                UND.setdefault(patch, []).append('%s undecided=%d' % (pid, len(und)))
     finally:
         shutil.rmtree(tmp, ignore_errors=True)
     return patch, out
 patches = sorted(os.path.abspath(p) for d in sys.argv[1:] for p in (glob.glob(os.path.join(d, '*.diff')) if os.path.isdir(d) else [d]))
 with ThreadPoolExecutor(max_workers=6) as ex:
     for patch, out in ex.map(run_one, patches):
-        print('==', patch, 'SILENT' if not out else 'ALARMS %d' % len(out))
+        print('==', patch, ('SILENT' if not out else 'ALARMS %d' % len(out)) + (('  [' + ', '.join(UND[patch]) + ']') if UND.get(patch) else ''))
         for l in out:
             print('    ', l)
